@@ -580,12 +580,16 @@ def _msf_fit_shapes(tier):
         for prot in (0, 1):
             out.append(dict(name='desc%s_name%s_prot%d' % (('m%d' % -od) if od < 0 else ('p%d' % od), ('m%d' % -on) if on < 0 else ('p%d' % on), prot),
                             defs=dict(KV_N=2, KV_W=2, KV_PROT=prot, KV_OVER_DESC='(%d)' % od, KV_OVER_NAME='(%d)' % on), unwind=70))
+    # the table of output lines grows on the way (capacity 4 instead of 24: three resize_line_buffer calls for the 12 lines of the file)
+    for od, on in ([(-100, -100), (40, 40)] if tier == 'quick' else [(-100, -100), (40, 40), (0, -100), (-100, 0)]):
+        out.append(dict(name='desc%s_name%s_prot0_grow' % (('m%d' % -od) if od < 0 else ('p%d' % od), ('m%d' % -on) if on < 0 else ('p%d' % on)),
+                        defs=dict(KV_N=2, KV_W=2, KV_PROT=0, KV_OVER_DESC='(%d)' % od, KV_OVER_NAME='(%d)' % on, KV_LCAP_GROW=4), unwind=70))
     return out
 Q(id='C15.msf_header_fit', props=['C15', 'C05'], cls='B', harness='c15_msf_fit.c', entry='h_c15_msf_fit', shapes=_msf_fit_shapes,
   mode='wrap', timeout=900, loops_files=['msa_alloc.shrink.loops', 'msa_io.shrink.loops', 'msa_io.lines.shrink.loops'], shrink=True,
   defs=['-DKV_CAP=2', '-DKV_SEQCAP=2', '-DKV_LCAP=24', '-DKV_OUTMAX=1400'], object_bits=10,
   unwindset={'kv_streq.0': 82, 'strnlen.0': 258, 'kv_fit_snprintf.0': 402, 'strlen.0': 100},
-  funcs=['write_msa_msf', 'alloc_line_buffer', 'free_line_buffer', 'sort_out_lines', 'GCGchecksum', 'GCGMultchecksum'],
+  funcs=['write_msa_msf', 'alloc_line_buffer', 'resize_line_buffer', 'free_line_buffer', 'sort_out_lines', 'GCGchecksum', 'GCGMultchecksum'],
   srcs=WRITER_SRCS, native_srcs=['lib/src/tldevel.c', 'lib/src/esl_stopwatch.c'] + WRITER_SRCS,
   trusted=[TRUST_MSG, 'snprintf replaced by its CONTRACT (writes at most `size` bytes into a buffer that must hold them, returns the length the complete text needs; that length is chosen by the harness relative to the offered buffer, so the file-name / row-name length is abstracted, not bounded)',
            'fprintf no-op, fopen/fclose/time/localtime_r/strftime trivial', 'qsort insertion-sort stub', 'realloc: fresh block, contents carried over only for blocks <= 48 bytes (over-approximation for line buffers)',
